@@ -17,6 +17,15 @@ def gen_case(rng, cid, mode):
         s = S.gen_sel(rng, fns=fns, names=("a", "b", "p", "c"), maxdepth=rng.choice([1, 2]), generic=0.5, cats=0.6, conds=conds,
                       values=range(0, 25))
         hs.append(W.norm_handler({"kind": "imm", "sel": s, "raw": True}))
+    if len(fns) > 1 and rng.random() < 0.5:
+        # a function tag on a level of the path that captures nothing: no function of the world carries a tag, so the
+        # selector matches no call at all (whatever its deeper levels would capture)
+        outer, inner = rng.choice(fns), rng.choice(fns)
+        leaf = S.node(inner, [S.cap(rng.choice(["a", "b", "c", ""]), "k9", 1, cat=rng.choice(["", "T"]))])
+        top = S.node(outer, [], [leaf], fcat="T")
+        if rng.random() < 0.4:
+            top = S.node(rng.choice(fns), [S.cap("a", "k8", 0)], [top])
+        hs.append(W.norm_handler({"kind": "imm", "sel": top, "raw": True}))
     return {"id": cid, "script": sc, "arg": rng.randint(0, 30), "handlers": hs}
 
 
